@@ -107,6 +107,15 @@ type Router struct {
 	Log       []Event
 	KeepLog   bool
 	Blackhole [2]bool // drop everything in that direction (dead peer)
+	suspended bool    // the schedule (explicit faults and random process) is switched off
+}
+
+// SuspendFaults switches the fault schedule off (true) or on again (false); hooks, blackholes and
+// injections are not affected.
+func (r *Router) SuspendFaults(off bool) {
+	r.mu.Lock()
+	r.suspended = off
+	r.mu.Unlock()
 }
 
 // NewRouter creates a router and starts its two delivery goroutines (stop them with Close).
@@ -201,10 +210,10 @@ func (r *Router) SendPacket(p simnet.Packet) error {
 		return nil
 	}
 	act, scheduled := r.faults[[2]int{int(dir), info.Ordinal}]
-	if !scheduled {
-		act = Pass
+	if !scheduled || r.suspended {
+		act, scheduled = Pass, false
 	}
-	if r.rate != nil && !scheduled && now < r.rate.Until {
+	if r.rate != nil && !scheduled && !r.suspended && now < r.rate.Until {
 		x := r.rng.Float64()
 		switch {
 		case x < r.rate.PDrop:
